@@ -722,6 +722,9 @@ def createClassString (env : Env) : Nat → Class → String → Bool → G Stri
     let ctorTypeVars := match c.ctor with
       | some ctor => ctor.typeVars
       | none => []
+    -- the generics of a class are valid for its own methods only; those of the surrounding class come back afterwards
+    let outerGenerics := (← get).classGenerics
+    modify fun s => { s with classGenerics := [] }
     let varianceInfo ← (if !c.typeParams.isEmpty || !ctorTypeVars.isEmpty then do
         let items ← typeParamStrings env c.typeParams
         let generics := ctorTypeVars.foldl (fun acc tv =>
@@ -736,7 +739,8 @@ def createClassString (env : Env) : Nat → Class → String → Bool → G Stri
     let (attrText, attrNames) ← createClassAttributeString env c.attributes inner
     let innerText ← innerClassesG (fun ic => createClassString env fuel ic inner true) (c.classes.filter (·.isPublic))
     let (methodText, methodNames) ← createClassMethodString env c.methods inner
-    let alreadyDefined := unionSet attrNames methodNames
+    -- own attributes, methods and (public) inner classes hide inherited members of the same name
+    let alreadyDefined := unionSet (unionSet attrNames methodNames) ((c.classes.filter (·.isPublic)).map (·.name))
     let (superInfo, superMethodsText, nNames) ← (if !c.superclasses.isEmpty && !c.isAbstract then do
         let (names, text) ← superclassesG env
           (fun sc => createInternalClassString env fuel sc inner alreadyDefined) c.superclasses
@@ -744,6 +748,7 @@ def createClassString (env : Env) : Nat → Class → String → Bool → G Stri
       else pure ("", "", 0) : G (String × String × Nat))
     if nNames > 1 then addTodo "multiple_inheritance"
     let classInheritanceTodo ← createTodoMsg indent
+    modify fun s => { s with classGenerics := outerGenerics }
     let signature := pythonNameInfo ++ indent ++ classSignatureTodo ++ classInheritanceTodo ++ "class "
       ++ escapeKeyword camel ++ varianceInfo ++ constructorInfo ++ superInfo
     let classText := attrText ++ innerText ++ superMethodsText ++ methodText
